@@ -488,6 +488,10 @@ func runCheck(id string, p *prop, tier string, seed int64, onlyBatch int, keep, 
 		fmt.Fprintf(os.Stderr, "check %s: %d race report(s) with harness frames only - the harness is broken:\n%s\n", id, len(harnessRace), harnessRace[0])
 		return 2
 	}
+	if len(samples) == 0 {
+		fmt.Fprintf(os.Stderr, "check %s: no sample case was recorded (evidence would be invalid)\n", id)
+		return 2
+	}
 	if finished == 0 || evals == 0 || len(sigs) < 2 {
 		fmt.Fprintf(os.Stderr, "check %s: nothing decided (finished batches=%d evaluations=%d distinct=%d)\n", id, finished, evals, len(sigs))
 		return 2
